@@ -72,6 +72,10 @@
 #@with DEC1 := 
 #@with DEC2 := 
 #@with LIM := LIMITED
+#@with EXTRA_REQ := 
+#@with GHOSTN := 
+#@with INV_N := 
+#@with STEP_N := 
 #@case
 #@ LIMITED = true (C07): same simulation, plus TERMINATION with the measure (budget, |code|+1-pc)
 #@with V := #limited
@@ -81,6 +85,24 @@
 #@with DEC1 := decreases cxt.budget, code_s.len() + 1 - pc
 #@with DEC2 := decreases code_s.len() - pc
 #@with LIM := true
+#@with EXTRA_REQ := 
+#@with GHOSTN := 
+#@with INV_N := 
+#@with STEP_N := 
+#@case
+#@ LIMITED = false, TOTAL correctness (C04: "whenever the canonical run terminates"): for a balanced program
+#@ whose canonical run halts, the interpreter terminates -- measure N - n with N a halting step count
+#@with V := #total
+#@with D5 := @@ impl<C: CellType> InplaceInterpreter<'_, C>#total > fn execute_in @ d5 LIMITED=false name=execute_in_total
+#@with EXTRA_ENS := 
+#@with ATTR := 
+#@with DEC1 := decreases big_n - n
+#@with DEC2 := decreases code_s.len() - pc
+#@with LIM := false
+#@with EXTRA_REQ := balanced(str_bytes(self.code)), canon_halts(str_bytes(self.code), C::bits(), old(cxt).oracle(), init_cfg(old(cxt))),
+#@with GHOSTN := let ghost big_n: nat = choose|k: nat| halted(code_s, #[trigger] canon_run(code_s, w, orc, c0, k));
+#@with INV_N := balanced(code_s), halted(code_s, canon_run(code_s, w, orc, c0, big_n)),
+#@with STEP_N := lemma_not_halted_before(code_s, w, orc, c0, (n - 1) as nat, big_n);
 #@body
 @@ impl<C: CellType> InplaceInterpreter<'_, C>${V} > fn execute_in @ shape
 while match if return if else return if while if if break else if else if if return ? if
@@ -92,6 +114,7 @@ ${ATTR}
         requires
             // `cnt` is an i32: the skip scan would overflow it on 2^31 nested brackets
             str_bytes(self.code).len() < 0x7fff_ffff,
+            ${EXTRA_REQ}
         ensures
             final(cxt).oracle() == old(cxt).oracle(),
             // C04 / C07 / C08: for every balanced program the call returns Ok, the event log is
@@ -114,6 +137,7 @@ ${ATTR}
         let ghost c0 = init_cfg(cxt);
         let ghost mut cfg = c0;
         let ghost mut n: nat = 0;
+        ${GHOSTN}
         proof { C::facts(); C::eq_all(); }
 @@ impl<C: CellType> InplaceInterpreter<'_, C>${V} > fn execute_in @ loop 1
             invariant
@@ -127,6 +151,7 @@ ${ATTR}
                 balanced(code_s) ==> stack_ok(code_s, pc as int, loop_stack@),
                 w == C::bits(),
                 cxt.budget <= old(cxt).budget,
+                ${INV_N}
             ${DEC1}
 @@ impl<C: CellType> InplaceInterpreter<'_, C>${V} > fn execute_in @ loop 1 body_start
             let ghost pc0 = pc as int;
@@ -138,6 +163,7 @@ ${ATTR}
                     n = n + 1;
                     assert(!halted(code_s, cfg0));
                     assert(cfg == canon_run(code_s, w, orc, c0, n));
+                    ${STEP_N}
                     lemma_depth_step(code_s, pc0);
                     if code_s[pc0] != 0x5Bu8 && code_s[pc0] != 0x5Du8 {
                         lemma_stack_plain(code_s, pc0, loop_stack@);
